@@ -33,7 +33,7 @@ pub struct Next {
 unsafe impl Send for Next {}
 
 #[derive(Clone, Default)]
-pub struct Slot(Arc<Mutex<Option<Next>>>);
+pub struct Slot(Arc<Mutex<Option<Next>>>, Arc<Mutex<Option<(i64, usize)>>>);
 
 impl Slot {
     /// Runs the scripted inner actions; returns whether the inner completes now.
@@ -58,14 +58,57 @@ impl Slot {
             "ctx" => {
                 exec(&mut actor, rc, &json!({"ev":"call","t":nx.t,"op":"ctxl"}));
             }
+            "hold" => {
+                // a span the inner future creates under the local parent and keeps until it completes or is dropped
+                let mut held = self.1.lock().unwrap();
+                if held.is_none() {
+                    exec(&mut actor, rc, &json!({"ev":"call","t":nx.t,"op":"childl","h":nx.n}));
+                    *held = Some((nx.n, nx.rc as usize));
+                }
+            }
             _ => {}
         }
-        emit(json!({"ev":"call","t":nx.t,"op":"pollend","f":crate::ops::sname(nx.f),"fin":nx.fin,"m":crate::rt::mono_us(),"w":crate::rt::wall_us()}));
+        let mut end = json!({"ev":"call","t":nx.t,"op":"pollend","f":crate::ops::sname(nx.f),"fin":nx.fin,"m":crate::rt::mono_us(),"w":crate::rt::wall_us()});
+        if nx.fin {
+            // the inner completes: what it holds is released first, inside the poll
+            if let Some(c) = self.release() {
+                end["held"] = json!(crate::ops::sname(c));
+            }
+        }
+        emit(end);
         (nx.fin, nx.tail, nx.err)
     }
 }
 
+impl Slot {
+    /// Finishes the span the inner holds (no events of its own: it is part of the enclosing call).
+    fn release(&self) -> Option<i64> {
+        let held = self.1.lock().unwrap().take();
+        held.map(|(c, rc)| {
+            let rc = unsafe { &*(rc as *const RunCtx) };
+            let span = rc.spans.lock().unwrap().remove(&c);
+            drop(span);
+            c
+        })
+    }
+}
+
 pub struct SFut(Slot);
+impl Drop for SFut {
+    fn drop(&mut self) {
+        self.0.release();
+    }
+}
+impl Drop for SStream {
+    fn drop(&mut self) {
+        self.0.release();
+    }
+}
+impl Drop for SSink {
+    fn drop(&mut self) {
+        self.0.release();
+    }
+}
 impl Future for SFut {
     type Output = ();
     fn poll(self: Pin<&mut Self>, _cx: &mut Context<'_>) -> Poll<()> {
